@@ -51,7 +51,9 @@ static const std::vector<std::string>& value_pool()
                                                 "{}",    "%s",    "a{}b",   "{0}",
                                                 "\"quoted text\"", "\"\"", "\"a;b\"", "'single'",
                                                 "18446744073709551615", "9223372036854775808",
-                                                "9223372036854775807", "-9223372036854775808", "4294967296" };
+                                                "9223372036854775807", "-9223372036854775808", "4294967296",
+                                                ";",     "a;",    ";;",     ";b",   "prog", "main",
+                                                "\xe2\x80\x93" "20", "\xe2\x80\x94", "2.5", "10%", "12abc" };
     return p;
 }
 
@@ -303,7 +305,7 @@ static void gen_related_tokens(vf::Src& src, const Case& c, std::vector<std::str
         return "zz-undeclared";
     };
     auto undeclared_letter = [&]() -> char {
-        static const std::string all = "abovxyzn1_.A:QZ7";
+        static const std::string all = "abovxyzn1_.A:QZ7, ";
         // now and then the high-bit twin of a declared letter (letter + 0x80)
         if (src.coin(10))
             for (auto& e : c.e)
@@ -539,7 +541,9 @@ static void gen_c02(vf::Src& src, Case& c)
         }
         else
         {
-            int k = src.coin(70) ? (src.coin(95) ? src.irange(1, 5) : src.irange(100, 300)) : 0;
+            int k = src.coin(70) ? (src.coin(95) ? src.irange(1, 5)
+                                                 : std::vector<int>{ 100, 255, 256, 257, 300, 512, 600 }[src.index(7)])
+                                 : 0;
             e.want_count = k ? k : (e.has_default ? e.tdef : 0);
             // (not when a declared option is called "no-<this toggle>": that spelling belongs to it)
             bool no_name_taken = false;
@@ -565,7 +569,11 @@ static void gen_c02(vf::Src& src, Case& c)
         std::string pool = letter_occ;
         while (!pool.empty())
         {
-            int k = src.irange(1, std::min<int>(pool.size() > 50 ? 80 : 4, static_cast<int>(pool.size())));
+            // (hundreds of letters: now and then all of them in one token)
+            int most = pool.size() > 50 ? (src.coin(35) ? static_cast<int>(pool.size()) : 80) : 4;
+            int k = src.coin(20) && pool.size() > 50 ? most
+                                                     : src.irange(1, std::min<int>(most, static_cast<int>(pool.size())));
+            k = std::min<int>(k, static_cast<int>(pool.size()));
             std::string t = "-";
             for (int i = 0; i < k; ++i)
             {
@@ -1077,6 +1085,36 @@ static void gen_c14(vf::Src& src, Case& c)
             st.argv.insert(st.argv.begin(), no_pair);
         c.steps.push_back(st);
     }
+    // bound variables kept in harness-owned buffers and rewritten in place between the calls
+    c.putenv_mode = src.coin(20);
+    // a rejected call followed by its legal twin: a bundle with "=value" attached, then the bare bundle; or a
+    // reversal next to an unknown token, then the toggle given twice
+    {
+        std::vector<const Entry*> tl;
+        for (auto& e : c.e)
+            if (e.kind == TOGGLE && !e.short_.empty() && e.short_ != "-")
+                tl.push_back(&e);
+        if (tl.size() >= 2 && src.coin(10))
+        {
+            std::string bundle = "-" + tl[0]->short_ + tl[1]->short_;
+            Step a = blank_step(c), b = blank_step(c);
+            a.argv = { bundle + "=1" };
+            b.argv = { bundle };
+            std::size_t at = src.index(c.steps.size());
+            c.steps.insert(c.steps.begin() + static_cast<long>(at) + 1, b);
+            c.steps.insert(c.steps.begin() + static_cast<long>(at) + 1, a);
+        }
+        else if (!tl.empty() && src.coin(10))
+        {
+            const Entry& e = *tl[src.index(tl.size())];
+            Step a = blank_step(c), b = blank_step(c);
+            a.argv = { "--no-" + e.name, "--zz-unknown-option" };
+            b.argv = { src.coin(50) ? "-" + e.short_ : "--" + e.name, "--" + e.name };
+            std::size_t at = src.index(c.steps.size());
+            c.steps.insert(c.steps.begin() + static_cast<long>(at) + 1, b);
+            c.steps.insert(c.steps.begin() + static_cast<long>(at) + 1, a);
+        }
+    }
     // a later call without any command line at all: parse(0, {NULL})
     if (src.coin(12))
     {
@@ -1393,6 +1431,33 @@ static std::string check_c02_typed(const Case& c, const Step& st, vf::Ctx& ctx)
                 return false;
         return true;
     };
+    // typed access to values that are not (entirely) numbers comes first: whatever it yields or raises,
+    // it must not influence the reads that follow
+    for (auto& e : c.e)
+        if (e.kind == OPTION && e.want.size() == 1 && !is_int(e.want[0], true))
+        {
+            try
+            {
+                (void)args.as<int>(e.name);
+            }
+            catch (const std::exception&)
+            {
+            }
+            try
+            {
+                (void)args.as<double>(e.name);
+            }
+            catch (const std::exception&)
+            {
+            }
+            try
+            {
+                (void)args.as<long>(e.name);
+            }
+            catch (const std::exception&)
+            {
+            }
+        }
     for (auto& e : c.e)
     {
         if (e.kind == OPTION && e.want.size() == 1)
